@@ -74,7 +74,8 @@ def run(tier, seed, replay):
         d1 = [g for g in gen if g["d"] == 1]
         rep.cov["tlc_enumerated_depth1_path_expressions"] = len(d1)
         if quick:
-            d1 = r.sample(d1, 700)
+            keep = [g for g in d1 if "[] |" in g["p"] or "{} |" in g["p"] or "select(false)" in g["p"]][:250]     # computed empty containers: the invalid-path boundary
+            d1 = keep + r.sample(d1, 600)
         cases, pairs = [], []
 
         def add(src, inputs, ref=None):
